@@ -143,6 +143,8 @@ package zip
 //@   trusted "delegates to modfile.ParseLax; only its frame is used (the go version is an opaque string here)"
 //@   props C17 C05
 
+//@ spec func VALIDNAME_BUT_CASE(p string, vers string) bool =
+//@     path.Clean(p) == p && !path.IsAbs(p) && !VENDORED(p, vers) && p != ".hg_archival.txt" && PATHOK(p, 2)
 //@ # what the file check lets through as a valid file name
 //@ spec func VALIDNAME(p string, vers string) bool =
 //@     path.Clean(p) == p && !path.IsAbs(p) && !VENDORED(p, vers) && p != ".hg_archival.txt" && PATHOK(p, 2)
@@ -170,6 +172,22 @@ package zip
 //@   call checkFiles$1 requires [C17] size_rules_apply: (arg_err == errLICENSESize ==> arg_path == "LICENSE" && size > MaxLICENSE && !arg_omitted) && (arg_err == errGoModSize ==> arg_path == "go.mod" && size > MaxGoMod && !arg_omitted)
 //@   call checkFiles$1 requires [C17] name_rules_apply: (arg_err == errGoModCase ==> strings.ToLower(arg_path) == "go.mod" && arg_path != "go.mod" && !arg_omitted) && (arg_err == errPathNotClean ==> path.Clean(arg_path) != arg_path && !arg_omitted) && (arg_err == errPathNotRelative ==> path.IsAbs(arg_path) && !arg_omitted)
 //@   call checkFiles$1 requires [C17] omit_rules_apply: (arg_err == errVendored ==> VENDORED(arg_path, vers) && arg_omitted) && (arg_err == errHgArchivalTxt ==> arg_path == ".hg_archival.txt" && arg_omitted) && (arg_err == errSymlink ==> arg_omitted) && (arg_err == errNotRegular ==> arg_omitted) && (arg_err == errSubmoduleFile ==> arg_omitted)
+//@   # the decision order: each reason is given exactly on the path where its rule applies and every rule documented
+//@   # as taking precedence does not (call sites of the reporting closure in source order; site 0 is the I/O error of
+//@   # the go.mod pre-pass)
+//@   call checkFiles$1 site 1 requires [C17] order_unclean: arg_err == errPathNotClean && !arg_omitted && path.Clean(arg_path) != arg_path
+//@   call checkFiles$1 site 2 requires [C17] order_absolute: arg_err == errPathNotRelative && !arg_omitted && path.Clean(arg_path) == arg_path && path.IsAbs(arg_path)
+//@   call checkFiles$1 site 3 requires [C17] order_vendored: arg_err == errVendored && arg_omitted && path.Clean(arg_path) == arg_path && !path.IsAbs(arg_path) && VENDORED(arg_path, vers)
+//@   call checkFiles$1 site 4 requires [C17] order_submodule: arg_err == errSubmoduleFile && arg_omitted && path.Clean(arg_path) == arg_path && !path.IsAbs(arg_path) && !VENDORED(arg_path, vers)
+//@   call checkFiles$1 site 5 requires [C17] order_hg: arg_err == errHgArchivalTxt && arg_omitted && arg_path == ".hg_archival.txt" && !VENDORED(arg_path, vers)
+//@   call checkFiles$1 site 6 requires [C17] order_illformed: !arg_omitted && arg_err != nil && path.Clean(arg_path) == arg_path && !path.IsAbs(arg_path) && !VENDORED(arg_path, vers) && arg_path != ".hg_archival.txt" && !PATHOK(arg_path, 2)
+//@   call checkFiles$1 site 7 requires [C17] order_gomod_case: arg_err == errGoModCase && !arg_omitted && VALIDNAME_BUT_CASE(arg_path, vers) && strings.ToLower(arg_path) == "go.mod" && arg_path != "go.mod"
+//@   call checkFiles$1 site 8 requires [C17] order_io_error: !arg_omitted && !PREDEFINED(arg_err) && VALIDNAME(arg_path, vers)
+//@   call checkFiles$1 site 9 requires [C17] order_collision: !arg_omitted && arg_err != nil && VALIDNAME(arg_path, vers)
+//@   call checkFiles$1 site 10 requires [C17] order_symlink: arg_err == errSymlink && arg_omitted && VALIDNAME(arg_path, vers) && info.Mode() & os.ModeType == os.ModeSymlink
+//@   call checkFiles$1 site 11 requires [C17] order_irregular: arg_err == errNotRegular && arg_omitted && VALIDNAME(arg_path, vers) && info.Mode() & os.ModeType != os.ModeSymlink && !info.Mode().IsRegular()
+//@   call checkFiles$1 site 12 requires [C17] order_gomod_size: arg_err == errGoModSize && !arg_omitted && arg_path == "go.mod" && size > MaxGoMod && info.Mode().IsRegular()
+//@   call checkFiles$1 site 13 requires [C17] order_license_size: arg_err == errLICENSESize && !arg_omitted && arg_path == "LICENSE" && size > MaxLICENSE && info.Mode().IsRegular()
 //@   ensures [C17, C05] parallel: len(validFiles) == len(cf.Valid) && len(validSizes) == len(cf.Valid) && (forall k int :: 0 <= k && k < len(cf.Valid) ==> validFiles[k] != nil && validFiles[k].Path() == cf.Valid[k])
 //@   ensures [C17, C05] sizes: cf.SizeError == nil ==> (forall k int :: 0 <= k && k < len(validSizes) ==> 0 <= validSizes[k] && validSizes[k] <= MaxZipFile)
 //@   loop 0:
